@@ -39,6 +39,12 @@ def format (buf : Bytes) (s f : Nat) : Bytes :=
   let b := dec value
   buf ++ groupLoop (separator f) (3 - b.length % 3) b 0 ++ unit
 
+/-- `String`, `PrettyString`, `PrettyHTML`, `BytesString` / `BytesJSONNumber` -/
+def toString (s : Nat) : Bytes := format [] s 0
+def prettyString (s : Nat) : Bytes := format [] s Gen.size_FormatPretty
+def prettyHTML (s : Nat) : Bytes := format [] s (Gen.size_FormatPretty ||| Gen.size_FormatHTML)
+def bytesString (s : Nat) : Bytes := dec s
+
 structure MarshalCfg where
   disableTextUnit : Bool
   disableJSONString : Bool
